@@ -1,4 +1,5 @@
 CONSTANTS KFSkip = {}  Impl = "asfound"
 SPECIFICATION Spec
+CONSTRAINT JudgeOnly
 INVARIANT JudgeOK
 CHECK_DEADLOCK FALSE
